@@ -139,3 +139,27 @@ PROPS["C06"] = {
     "technique": "Coq simulation proof from a checked quotient certificate + extracted-model differential correspondence",
     "assumptions": ["tables come from lalr.Compile"],
 }
+
+PROPS["C03"] = {
+    "runs": [{"cmd": "c03.random", "quick": 500, "thorough": 8000, "thorough_seeds": 2}],
+    "nontrivial": lambda c: len(c["input"]) > 60,
+    "rule": "random CFGs (1-5 nonterminals, 1-5 terminals, empty and mutually recursive nullable rules, several inputs, no-eoi inputs; a quarter with precedence groups / %prec; a sixth with non-zero %expect values), conflicting grammars included; per grammar the full state machine (kernels, reductions, transitions, lookahead sets), the tables, conflict counts and the error decision",
+    "modelled": "lalr/compile.go: computeStates (LR(0) collection incl. final-state synthesis, lr0 flags, addShift), initLalr, buildLA's result (as the least solution of closure/goto propagation), populateTables, ruleAction/resolvePrec, conflict counting, reportConflicts' error decision. Not modelled: the DeRemer-Pennello machinery itself (empties, lookback, SCC unions) - its result is what is compared; .greedy; runtime lookahead rules",
+    "partial": "the reference lookahead sets are the least fixpoint of the LALR(1) propagation constraints computed by a naive iteration; the proof that this least fixpoint equals the inductive LR(1)-validity definition is not done",
+    "level_text": "A reference LALR(1) construction written in Gallina (worklist LR(0) collection over kernels, lookaheads as the least solution of closure/goto propagation, expected Action/Lalr/Goto/FromTo, precedence resolution, conflict counts) is compared with textmapper's states, lookahead sets, tables, SR/RR counts and error decision, state by state and cell by cell; the property oracle judges every (state, terminal) cell of the implementation's tables against the canonical cell.",
+    "level_note": "Trusted: Coq kernel, extraction, glue; hook lalr/verif_hooks.go VerifCompile replays Compile's phases and copies the states. States are identified by their kernel as textmapper does (start and final states apart).",
+    "technique": "executable Gallina reference construction + extracted-model differential correspondence (theorems in Props/C03.v cover the precedence/cell layer)",
+    "assumptions": ["no .greedy markers, no runtime lookahead nonterminals"],
+}
+
+PROPS["C04"] = {
+    "runs": [{"cmd": "c04.random", "quick": 600, "thorough": 10000, "thorough_seeds": 2}],
+    "nontrivial": lambda c: "((0 " in c["input"] or "((1 " in c["input"] or "((2 " in c["input"],
+    "rule": "expression grammars E -> E op E | op E | E op | ( E ) | id | E E with 1-4 operators, random %left/%right/%nonassoc groups (some operators undeclared, some declared twice), %prec markers; every (state, terminal) cell of the tables lalr builds is compared with the cell the precedence model prescribes; distinct = distinct grammars; non-trivial = at least one precedence group",
+    "modelled": "lalr/compile.go resolvePrec (rule precedence = %prec else last terminal, group comparison, associativity), ruleAction, the conflictBuilder ambiguity bookkeeping, the per-cell fold of populateTables (-3 -> -2), on top of the reference LALR(1) automaton of C03",
+    "partial": "behaviour-level observation through generated parsers (tree shapes) is covered by the parser run properties, not here",
+    "level_text": "Universal Coq theorems about the model of the cell fold: a shift against one reduction is decided exactly by the documented comparison (higher group wins; equal: left reduces, right shifts, nonassoc yields an error cell; any undeclared side: unresolved conflict, shift kept); unresolved reduce/reduce keeps the earlier rule; once unresolved a cell's action is frozen. The model's cells are compared with every cell of lalr's tables for expression grammars with random precedence declarations.",
+    "level_note": "Trusted: Coq kernel, extraction, glue; hook VerifCompile. Uses the reference automaton of C03 for the lookahead sets.",
+    "technique": "Coq proof over a Gallina model of resolvePrec/ruleAction + extracted-model differential correspondence on all table cells",
+    "assumptions": ["no runtime lookahead nonterminals in the conflicting cells"],
+}
